@@ -21,7 +21,7 @@ K_UrlSels == {"URL:http://h.example/p?q=1&r", "/URL:http://h.example/"}
 K_SearchTokens == {"a", " ", "1", "+", "%", "&", "=", "?", "#", "^", "%41"}
 K_Kinds6 == {"file", "dir", "mbox", "maildir", "mapdir", "zip"}
 K_Inner6 == {"a b", "^", "?"}
-K_SearchSels == {"/echo.pyg", "/echo.pyg?arg", "/e#.pyg", "/e%41.pyg", "/e^.pyg", "/e b.pyg"}
+K_SearchSels == {"/echo.pyg", "/echo.pyg?arg", "/e#.pyg", "/e%41.pyg", "/e^.pyg", "/e b.pyg", "echo.pyg"}
 K_SearchShapes == {"a 1", "a b 1", "/zz 0", "x HTTP/1.0", "GET /zz HTTP/1.0", "gemini://localhost/zz", "{{{{{{{{{{{{{{"}
 K_Views6 == {"G", "GP", "GD", "SG", "SGP", "SGD", "H", "HS", "W", "M", "S"}
 =============================================================================
